@@ -46,15 +46,32 @@ type logT struct {
 	sv         *ct.SignatureVerifier
 	configured bool
 	idHash     []byte // what FromBase64String(id) yields; nil if it fails
+	// an id string that is NOT configured but is another spelling of the configured log aliasOf's id
+	// (spelling.go); it carries that log's key, so everything it signs is a valid STH of that log
+	aliasOf  *logT
+	spelling string
 }
 
 func newLog(name string, configured bool, badKeyString bool) *logT {
-	sk, err := ecdsa.GenerateKey(elliptic.P256(), crand.Reader)
-	if err != nil {
-		panic(err)
+	return newLogWith(name, configured, badKeyString, nil)
+}
+
+// newLogWith draws keys until the base64 id string satisfies need (e.g. contains '/' and '+').
+func newLogWith(name string, configured bool, badKeyString bool, need func(id string) bool) *logT {
+	var sk *ecdsa.PrivateKey
+	var h [32]byte
+	for {
+		var err error
+		sk, err = ecdsa.GenerateKey(elliptic.P256(), crand.Reader)
+		if err != nil {
+			panic(err)
+		}
+		der, _ := x509.MarshalPKIXPublicKey(&sk.PublicKey)
+		h = sha256.Sum256(der)
+		if need == nil || need(base64.StdEncoding.EncodeToString(h[:])) {
+			break
+		}
 	}
-	der, _ := x509.MarshalPKIXPublicKey(&sk.PublicKey)
-	h := sha256.Sum256(der)
 	sv, err := ct.NewSignatureVerifier(crypto.PublicKey(&sk.PublicKey))
 	if err != nil {
 		panic(err)
